@@ -25,6 +25,11 @@ func init() {
 	fs.Set("alsologtostderr", "false")
 	fs.Set("stderrthreshold", "FATAL")
 	klog.SetOutput(io.Discard)
+	if v := os.Getenv("VERIF_KLOG"); v != "" {
+		// debugging aid: the system's own log on stderr (never used by checks)
+		fs.Set("logtostderr", "true")
+		fs.Set("v", v)
+	}
 }
 
 // Result is what one simulated run reports.
